@@ -270,6 +270,8 @@ class Kernel:
 
     def _apply_write(self, fd: FD, b: bytes):
         data = self.files.setdefault(fd.path, bytearray())
+        if not b:
+            return      # a write of no bytes changes nothing (it does not even extend a file positioned past its end)
         if fd.append:
             fd.pos = len(data)
         if fd.pos > len(data):
@@ -526,6 +528,10 @@ class SimRaw(io.RawIOBase):
         return True
 
     def readinto(self, b):
+        if self.closed:
+            raise ValueError("I/O operation on closed file")
+        if not self._fd.readable:
+            raise io.UnsupportedOperation("File not open for reading")
         data = self._k.sys_read(self._fd, len(b))
         n = len(data)
         b[:n] = data
@@ -534,6 +540,10 @@ class SimRaw(io.RawIOBase):
     def write(self, b):
         if self._k.finished:
             return len(b)  # finaliser-time flush after the run: the world is gone
+        if self.closed:
+            raise ValueError("I/O operation on closed file")
+        if not self._fd.writable:
+            raise io.UnsupportedOperation("File not open for writing")
         return self._k.sys_write(self._fd, bytes(b))
 
     def seek(self, off, whence=0):
@@ -543,6 +553,10 @@ class SimRaw(io.RawIOBase):
         return self._fd.pos
 
     def truncate(self, size=None):
+        if self.closed:
+            raise ValueError("I/O operation on closed file")
+        if not self._fd.writable:
+            raise io.UnsupportedOperation("File not open for writing")
         if size is None:
             size = self._fd.pos
         return self._k.sys_truncate(self._fd, size)
